@@ -54,6 +54,8 @@ void liveness_probe(Ctx& c, Node& node, vctl::Server* server, vnode::FakePeer& b
         ping.command = "PING";
         ping.with_payload_length = false;
         auto resp = server->roundtrip(ping, 5000);
+        // a loaded machine can stall a thread for seconds: only a server that stays silent for a further 2 x 20 s is judged
+        for (int attempt = 0; attempt < 2 && !resp.ok; ++attempt) { c.label("ping_retried_after_timeout"); resp = server->roundtrip(ping, 20000); }
         if (!resp.ok || resp.field("CODE") != "OK_PING") c.fail("C35:daemon-stopped-serving", std::string("control PING not answered after ") + after);
     }
     benign.drain();
